@@ -379,6 +379,18 @@ Proof.
   destruct (four_gb <? dbl 64 s need); discriminate.
 Qed.
 
+Lemma pick_size_ok a init cp need n : pick_size a init cp need = GOk n -> need <= n /\ n <= four_gb.
+Proof.
+  destruct a as [k|]; simpl; [|apply grow_size_ok].
+  destruct ((k <? need) || (four_gb <? k)) eqn:E; [discriminate|]. intros [= <-].
+  apply orb_false_iff in E as [E1 E2]. apply N.ltb_ge in E1, E2. auto.
+Qed.
+Lemma pick_never_hangs a init cp need : 0 < init -> pick_size a init cp need <> GHang.
+Proof.
+  destruct a as [k|]; simpl; [|apply grow_never_hangs].
+  intros _. destruct ((k <? need) || (four_gb <? k)); discriminate.
+Qed.
+
 (* capacities for which the outcome differs: the one way in which the initial capacity IS visible *)
 Lemma grow_limit_depends_on_capacity :
   grow_size 3 (3 * 1073741824) (3 * 1073741824 + 1) = GNoMem /\
@@ -560,9 +572,9 @@ Lemma length_zero_nil {A} (l : list A) : length l = 0%nat -> l = [].
 Proof. destruct l; simpl; auto; lia. Qed.
 
 (* what _yr_arena_allocate_memory does to the buffers, whichever branch it takes *)
-Lemma m_alloc_spec orc m b x :
+Lemma m_alloc_spec orc m b z x :
   inv m -> (b < length (mbufs m))%nat ->
-  match m_alloc orc m b x with
+  match m_alloc orc m b z x with
   | MOk m' =>
       let l := mbufs m in let l' := mbufs m' in let rs := mrelocs m in
       mrelocs m' = rs /\ minit m' = minit m /\
@@ -575,6 +587,7 @@ Lemma m_alloc_spec orc m b x :
       (forall j p, free_pos rs j p -> (p < used l j)%nat -> nth p (data (bufof l' j)) 0 = nth p (data (bufof l j)) 0)
   | MErr ENoMem => True
   | MBad BadPlacement => True
+  | MBad BadDirtyZero => True
   | _ => False
   end.
 Proof.
@@ -585,12 +598,12 @@ Proof.
   assert (G' := G). destruct G' as [G1 G2]. destruct (G1 b Hb) as (Gz & Gu & Gt). fold mb in Gz, Gu, Gt.
   assert (Eu : N.of_nat (used l b) = u) by reflexivity.
   destruct (cap mb - u <? nlen x) eqn:Egrow.
-  - destruct (grow_size (minit m) (cap mb) (u + nlen x)) as [ncap| |] eqn:Eg.
-    + destruct (placement_ok l b (orc (mcalls m)) ncap) eqn:Ep; [|exact I].
-      set (nbase := orc (mcalls m)) in *.
+  - destruct (pick_size (snd (orc (mcalls m))) (minit m) (cap mb) (u + nlen x)) as [ncap| | |] eqn:Eg.
+    + destruct (placement_ok l b (fst (orc (mcalls m))) ncap) eqn:Ep; [|exact I].
+      set (nbase := fst (orc (mcalls m))) in *.
       unfold placement_ok in Ep. apply andb_true_iff in Ep as [Ep Ep3]. apply andb_true_iff in Ep as [Ep1 Ep2].
       apply negb_true_iff, N.eqb_neq in Ep1. apply N.leb_le in Ep2.
-      destruct (grow_size_ok _ _ _ _ Eg) as [Hfit _].
+      destruct (pick_size_ok _ _ _ _ _ Eg) as [Hfit _].
       cbv zeta. cbn [mrelocs minit mbufs].
       split; [reflexivity|]. split; [reflexivity|].
       apply (placed_spec l (mrelocs m) b nbase ncap x G Hin Hno Hb).
@@ -599,8 +612,10 @@ Proof.
       * exact Ep2.
       * intros j Hj Hne Hbj _. apply (place_ok_from_spec nbase ncap b l 0%nat Ep3 j); auto.
     + exact I.
-    + exfalso. eapply grow_never_hangs; eauto.
+    + exfalso. eapply pick_never_hangs; eauto.
+    + exact I.
   - apply N.ltb_ge in Egrow.
+    destruct (z && (nth b (mzlim m) 0 <? u + nlen x)); [exact I|].
     cbv zeta. cbn [mrelocs minit mbufs].
     split; [reflexivity|]. split; [reflexivity|].
     assert (Epl : upd l b (with_data mb (data mb ++ x)) = placed l (mrelocs m) b (base mb) (cap mb) x).
@@ -619,6 +634,7 @@ Definition sim_res (r : mres mem_arena) (A' : aarena) : Prop :=
   | MOk m' => inv m' /\ Rabs m' A'
   | MErr ENoMem => True
   | MBad BadPlacement => True
+  | MBad BadDirtyZero => True
   | _ => False
   end.
 
@@ -634,20 +650,21 @@ Qed.
 Lemma nth_over {A} (l : list A) p d : (length l <= p)%nat -> nth p l d = d.
 Proof. apply nth_overflow. Qed.
 
-Lemma sim_alloc orc m A b xC xA news A' :
+Lemma sim_alloc orc m A b z xC xA news A' :
   inv m -> Rabs m A -> a_alloc A b xA news = MOk A' ->
   length xA = length xC ->
   let u := used (mbufs m) b in
   (forall s, In s news -> fst s = b /\ (u <= snd s)%nat /\ (snd s + 8 <= u + length xC)%nat) ->
   NoOv news ->
   (forall k, (k < length xC)%nat -> free_pos news b (u + k) -> nth k xA 0 = nth k xC 0) ->
-  match m_alloc orc m b xC with
+  match m_alloc orc m b z xC with
   | MOk m' =>
       (forall s, In s news -> exists t, points (mbufs m') (le_dec (slice xC (snd s - u) 8)) t /\
                                         slice xA (snd s - u) 8 = enc_t t) ->
       inv (m_reg m' news) /\ Rabs (m_reg m' news) A'
   | MErr ENoMem => True
   | MBad BadPlacement => True
+  | MBad BadDirtyZero => True
   | _ => False
   end.
 Proof.
@@ -655,8 +672,8 @@ Proof.
   destruct (a_alloc_ok _ _ _ _ _ Ha) as [Hb ->].
   destruct R as [R1 R2 R3 R4 R5].
   assert (Hb' : (b < length (mbufs m))%nat) by (rewrite <- R2; exact Hb).
-  generalize (m_alloc_spec orc m b xC I Hb').
-  destruct (m_alloc orc m b xC) as [m'|[]|[]]; auto.
+  generalize (m_alloc_spec orc m b z xC I Hb').
+  destruct (m_alloc orc m b z xC) as [m'|[]|[]]; auto.
   cbv zeta. intros (Er & Ei & Ll & G' & Uo & Ub & Dn & Pp & Df) Hpt.
   destruct I as [G Hin HnoR Hinit].
   set (l := mbufs m) in *. fold u in Ub, Dn.
@@ -752,7 +769,8 @@ Lemma sim_poke m A b off xC xA news :
      (In s (mrelocs m) /\ (fst s <> b \/ (snd s + 8 <= off)%nat \/ (off + length xC <= snd s)%nat))) ->
   (forall p, free_pos (mrelocs m ++ news) b p -> (off <= p < off + length xC)%nat ->
      nth (p - off) xA 0 = nth (p - off) xC 0) ->
-  let m' := {| mbufs := poked (mbufs m) b off xC; mrelocs := mrelocs m ++ news; minit := minit m; mcalls := mcalls m |} in
+  let m' := {| mbufs := poked (mbufs m) b off xC; mrelocs := mrelocs m ++ news; minit := minit m; mcalls := mcalls m;
+               mzlim := mzlim m |} in
   inv m' /\ Rabs m' (let A1 := a_poke A b off xA in {| abufs := abufs A1; arelocs := arelocs A ++ news |}).
 Proof.
   intros [G Hin HnoR Hinit] [R1 R2 R3 R4 R5] Hb Ho HL Hno Hnews Hsl Hfr. cbv zeta.
@@ -822,13 +840,13 @@ Qed.
 Lemma m_reg_nil m : m_reg m [] = m.
 Proof. destruct m. unfold m_reg. simpl. now rewrite app_nil_r. Qed.
 
-Lemma sim_alloc_plain orc m A b x A' :
-  inv m -> Rabs m A -> a_alloc A b x [] = MOk A' -> sim_res (m_alloc orc m b x) A'.
+Lemma sim_alloc_plain orc m A b z x A' :
+  inv m -> Rabs m A -> a_alloc A b x [] = MOk A' -> sim_res (m_alloc orc m b z x) A'.
 Proof.
   intros Iv R Ha.
-  pose proof (sim_alloc orc m A b x x [] A' Iv R Ha eq_refl) as S. cbv zeta in S.
+  pose proof (sim_alloc orc m A b z x x [] A' Iv R Ha eq_refl) as S. cbv zeta in S.
   specialize (S (fun s (H : In s []) => match H with end) I (fun k _ _ => eq_refl)).
-  unfold sim_res. destruct (m_alloc orc m b x) as [m'|[]|[]]; auto.
+  unfold sim_res. destruct (m_alloc orc m b z x) as [m'|[]|[]]; auto.
   rewrite m_reg_nil in S. apply S. intros s [].
 Qed.
 
@@ -956,7 +974,7 @@ Proof.
     destruct (fold_splice_spec (enc_t None) offs (repeat 0 n) (enc_t_len None)) as (FL & FS & FP).
     { intros o Ho. rewrite repeat_length. auto. } { apply O2. }
     fold (struct_image n offs) in FL, FS, FP. rewrite repeat_length in FL.
-    pose proof (sim_alloc orc m A b (repeat 0 n) (struct_image n offs) _ A' Iv R Hs) as S.
+    pose proof (sim_alloc orc m A b true (repeat 0 n) (struct_image n offs) _ A' Iv R Hs) as S.
     cbv zeta in S. fold u in S. rewrite repeat_length in S. specialize (S FL).
     assert (Hn : forall s, In s (map (fun o => (b, (u + o)%nat)) offs) ->
                  fst s = b /\ (u <= snd s)%nat /\ (snd s + 8 <= u + n)%nat).
@@ -973,7 +991,7 @@ Proof.
       apply (Hf (b, (u + o)%nat)); [apply in_map_iff; eauto|reflexivity|simpl; lia]. }
     specialize (S Hfr).
     unfold step. fold u. unfold sim_res, mbind.
-    destruct (m_alloc orc m b (repeat 0 n)) as [m'|[]|[]]; auto.
+    destruct (m_alloc orc m b true (repeat 0 n)) as [m'|[]|[]]; auto.
     apply S. intros s Hs'. apply in_map_iff in Hs' as (o & <- & Ho). simpl.
     replace (u + o - u)%nat with o by lia. exists None. split.
     + simpl. apply zeros_slice.
@@ -1037,14 +1055,14 @@ Proof.
     unfold step. rewrite Ep. unfold mbind.
     destruct (a_alloc_ok _ _ _ _ _ Ea1) as [HbA EA1].
     assert (Hb : (b < length (mbufs m))%nat) by (rewrite <- R2; exact HbA).
-    pose proof (sim_alloc_plain orc m A b [i] A1 Iv R Ea1) as S1.
-    pose proof (m_alloc_spec orc m b [i] Iv Hb) as M1.
-    destruct (m_alloc orc m b [i]) as [m1|[]|[]]; try exact S1; try exact I.
+    pose proof (sim_alloc_plain orc m A b false [i] A1 Iv R Ea1) as S1.
+    pose proof (m_alloc_spec orc m b false [i] Iv Hb) as M1.
+    destruct (m_alloc orc m b false [i]) as [m1|[]|[]]; try exact S1; try exact I.
     destruct S1 as [I1 Ra1]. cbv zeta in M1. destruct M1 as (_ & _ & Ll1 & _ & Uo1 & Ub1 & _).
     assert (Hb1 : (b < length (mbufs m1))%nat) by lia.
-    pose proof (m_alloc_spec orc m1 b (le_enc 8 p) I1 Hb1) as M2.
+    pose proof (m_alloc_spec orc m1 b false (le_enc 8 p) I1 Hb1) as M2.
     rewrite R3 in Hs.
-    pose proof (sim_alloc orc m1 A1 b (le_enc 8 p) (enc_t t) _ A' I1 Ra1 Hs) as S2.
+    pose proof (sim_alloc orc m1 A1 b false (le_enc 8 p) (enc_t t) _ A' I1 Ra1 Hs) as S2.
     cbv zeta in S2. rewrite le_enc_length, enc_t_len in S2. specialize (S2 eq_refl).
     simpl in Ub1.
     assert (Hn : forall s, In s [(b, S (used (mbufs m) b))] ->
@@ -1055,12 +1073,12 @@ Proof.
                   nth k (enc_t t) 0 = nth k (le_enc 8 p) 0).
     { intros k Hk Hf. exfalso. apply (Hf (b, S (used (mbufs m) b))); [now left|reflexivity|simpl; lia]. }
     specialize (S2 Hfr).
-    destruct (m_alloc orc m1 b (le_enc 8 p)) as [m2|[]|[]]; try exact S2; try exact I.
-    unfold sim_res. apply S2. intros s [<-|[]]. simpl.
+    destruct (m_alloc orc m1 b false (le_enc 8 p)) as [m2|[]|[]]; try exact S2; try exact I.
+    unfold sim_res. apply S2. intros s [<-|[]]. cbn [fst snd].
     replace (S (used (mbufs m) b) - used (mbufs m1) b)%nat with 0%nat by lia.
     exists t. cbv zeta in M2. destruct M2 as (_ & _ & Ll2 & _ & Uo2 & _).
     assert (Sl : forall y : bytes, length y = 8%nat -> slice y 0 8 = y).
-    { intros y Hy. unfold slice. simpl. rewrite <- Hy. apply firstn_all. }
+    { intros y Hy. unfold slice. cbn [skipn]. rewrite <- Hy. apply firstn_all. }
     rewrite !Sl by (try apply le_enc_length; apply enc_t_len). split; [|reflexivity].
     rewrite le_dec_enc8 by auto.
     destruct t as [[tb to]|]; simpl in Pp |- *; auto.
@@ -1069,3 +1087,188 @@ Proof.
     destruct (Uo1 tb E4) as (B1 & _ & U1). destruct (Uo2 tb E4) as (B2 & _ & U2).
     rewrite B2, B1, U2, U1. repeat split; auto. lia.
 Qed.
+
+(* ------------------------------------------------------------------ sequences *)
+Lemma run_sim orc ops : forall m A A',
+  inv m -> Rabs m A -> arun true A ops = AOk A' -> sim_res (run orc m ops) A'.
+Proof.
+  induction ops as [|o r IH]; intros m A A' Iv R Hr; simpl in *.
+  - injection Hr as <-. split; auto.
+  - destruct (astep true A o) as [A1| | |] eqn:Ea; try discriminate.
+    pose proof (sim_step orc m A o A1 Iv R Ea) as S.
+    destruct (step orc m o) as [m1|[]|[]]; simpl in S |- *; try exact S.
+    destruct S as [I1 R1]. eapply IH; eauto.
+Qed.
+
+Lemma nth_repeat_any {A} (a : A) n i : nth i (repeat a n) a = a.
+Proof.
+  destruct (Nat.lt_ge_cases i n).
+  - apply nth_repeat.
+  - apply nth_overflow. rewrite repeat_length. lia.
+Qed.
+
+Lemma bufof_repeat nb i : bufof (repeat nullbuf nb) i = nullbuf.
+Proof. apply nth_repeat_any. Qed.
+
+Lemma init_ok nb cp : 0 < cp -> inv (init nb cp) /\ Rabs (init nb cp) (ainit nb).
+Proof.
+  intros Hc. split.
+  - constructor; cbn [init mbufs mrelocs minit]; auto.
+    + split.
+      * intros i Hi. unfold used. rewrite bufof_repeat. simpl. unfold two64. repeat split; lia.
+      * intros i j _ _ _ Hb. rewrite bufof_repeat in Hb. simpl in Hb. congruence.
+    + intros s [].
+    + exact I.
+  - constructor; cbn [init ainit mbufs mrelocs minit abufs arelocs]; auto.
+    + now rewrite !repeat_length.
+    + intros b. unfold used. rewrite bufof_repeat. rewrite nth_repeat_any. reflexivity.
+    + intros s [].
+    + intros b p _. rewrite bufof_repeat. rewrite nth_repeat_any. simpl. destruct p; reflexivity.
+Qed.
+
+(* the content computed from the real memory image equals the content computed without addresses *)
+Theorem abs_is_address_free nb ops cp orc m A :
+  0 < cp -> arun true (ainit nb) ops = AOk A -> run orc (init nb cp) ops = MOk m -> absA m = A /\ inv m.
+Proof.
+  intros Hc Ha Hr. destruct (init_ok nb cp Hc) as [I0 R0].
+  pose proof (run_sim orc ops _ _ _ I0 R0 Ha) as S. rewrite Hr in S. destruct S as [I1 R1].
+  split; auto. now apply Rabs_abs.
+Qed.
+
+Theorem growth_invisible_proof nb ops cp cp' orc orc' m m' :
+  disciplined nb ops -> 0 < cp -> 0 < cp' ->
+  run orc (init nb cp) ops = MOk m -> run orc' (init nb cp') ops = MOk m' ->
+  abs m = abs m'.
+Proof.
+  intros [A Ha] Hc Hc' H1 H2. unfold abs.
+  destruct (abs_is_address_free _ _ _ _ _ _ Hc Ha H1) as [-> _].
+  destruct (abs_is_address_free _ _ _ _ _ _ Hc' Ha H2) as [-> _]. reflexivity.
+Qed.
+
+(* a disciplined sequence can only fail by exhausting memory (or when the oracle is not a realloc) *)
+Theorem run_progress_proof nb ops cp orc :
+  disciplined nb ops -> 0 < cp ->
+  match run orc (init nb cp) ops with
+  | MOk _ => True | MErr ENoMem => True | MBad BadPlacement => True | MBad BadDirtyZero => True | _ => False
+  end.
+Proof.
+  intros [A Ha] Hc. destruct (init_ok nb cp Hc) as [I0 R0].
+  pose proof (run_sim orc ops _ _ _ I0 R0 Ha) as S.
+  destruct (run orc (init nb cp) ops) as [m|[]|[]]; auto.
+Qed.
+
+(* ------------------------------------------------------------------ saving *)
+Lemma table_from_ext : forall (l1 l2 : list bytes) off,
+  length l1 = length l2 -> (forall i, length (nth i l1 []) = length (nth i l2 [])) ->
+  table_from off l1 = table_from off l2.
+Proof.
+  induction l1 as [|a r IH]; intros [|a' r'] off HL H; cbn [length] in HL; try lia; auto.
+  cbn [table_from].
+  assert (Ea : nlen a = nlen a') by (unfold nlen; f_equal; apply (H 0%nat)).
+  rewrite Ea. do 2 f_equal. apply IH; [lia|]. intros i. apply (H (S i)).
+Qed.
+
+Lemma save_mem_abs c m : slots_in (mrelocs m) (mbufs m) -> NoOv (mrelocs m) -> save_mem c m = save c (abs m).
+Proof.
+  intros Hin Hno. unfold save_mem, save, abs, to_arena, absA. cbn [bufs relocs abufs arelocs].
+  destruct (mapslots_spec (cvt (mbufs m)) (mrelocs m) (mbufs m)) as ([SL S] & _ & _); auto.
+  { intros x _. apply enc_t_len. }
+  set (l' := mapslots (cvt (mbufs m)) (mrelocs m) (mbufs m)) in *.
+  assert (E1 : nlen (map data l') = nlen (mbufs m)) by (unfold nlen; now rewrite map_length, SL).
+  rewrite E1. f_equal. f_equal; [|f_equal; f_equal; now rewrite map_map].
+  apply table_from_ext.
+  - now rewrite !map_length.
+  - intros i. change (@nil N) with (data nullbuf). rewrite !map_nth. destruct (S i) as (_ & _ & U). symmetry. exact U.
+Qed.
+
+(* the bytes written depend only on the address-free content (for C08) *)
+Theorem save_address_free_proof c m m' :
+  slots_in (mrelocs m) (mbufs m) -> NoOv (mrelocs m) ->
+  slots_in (mrelocs m') (mbufs m') -> NoOv (mrelocs m') ->
+  abs m = abs m' -> save_mem c m = save_mem c m'.
+Proof. intros H1 H2 H3 H4 E. rewrite !save_mem_abs by auto. now rewrite E. Qed.
+
+Theorem save_independent_of_capacity_proof c nb ops cp cp' orc orc' m m' :
+  disciplined nb ops -> 0 < cp -> 0 < cp' ->
+  run orc (init nb cp) ops = MOk m -> run orc' (init nb cp') ops = MOk m' ->
+  save_mem c m = save_mem c m' /\ save_mem c m = save c (abs m).
+Proof.
+  intros D Hc Hc' H1 H2. assert (D' := D). destruct D' as [A Ha].
+  destruct (abs_is_address_free _ _ _ _ _ _ Hc Ha H1) as [_ [_ I1 I2 _]].
+  destruct (abs_is_address_free _ _ _ _ _ _ Hc' Ha H2) as [_ [_ I3 I4 _]].
+  split; [|now apply save_mem_abs].
+  apply save_address_free_proof; [exact I1|exact I2|exact I3|exact I4|].
+  exact (growth_invisible_proof _ _ _ _ _ _ _ _ D Hc Hc' H1 H2).
+Qed.
+
+(* ------------------------------------------------------------------ non-vacuity and refutations *)
+(* every allocation moves the buffer to fresh addresses / to addresses going down *)
+Definition orc_up : oracle := fun k => (N.of_nat (S k) * 65536, None).
+Definition orc_down : oracle := fun k => (1099511627776 - N.of_nat (S k) * 2097152, None).
+(* another growth policy: exactly the room that is needed plus one byte, so that every allocation
+   that does not fit moves the buffer *)
+Definition orc_tight (sizes : list N) : oracle := fun k => (N.of_nat (S k) * 65536, Some (nth k sizes 0)).
+Definition get_ok (r : mres mem_arena) : mem_arena := match r with MOk m => m | _ => init 0 1 end.
+Definition is_ok {A} (r : mres A) : bool := match r with MOk _ => true | _ => false end.
+
+(* all operation kinds; pointers within a buffer, across buffers and NULL; growth of both buffers
+   after the pointers were stored *)
+Definition ex_ops : list op :=
+  [ OStruct 1 24 [0; 16]%nat; OWrite 0 [104; 105; 0]; OStorePtr 1 0 (Some (0, 1)%nat);
+    OStorePtr 1 16 (Some (1, 0)%nat); OAlloc 2 4; OEmitArgReloc 2 7 (Some (0, 0)%nat);
+    OWrite 0 [1; 2; 3; 4; 5; 6; 7; 8; 9]; OStruct 1 16 [8]%nat; OStoreBytes 1 24 [255; 254];
+    OStorePtr 1 32 (Some (1, 39)%nat); OAllocRaw 0 [9; 9]; OWrite 0 [0; 0; 0; 0; 0; 0; 0; 0];
+    ORelocStore 0 14 (Some (2, 5)%nat); OStorePtr 1 0 None; OWrite 2 [1]; OWrite 1 [2]; OWrite 0 [3] ].
+
+Lemma ex_ops_ok :
+  disciplined 3 ex_ops /\
+  is_ok (run orc_up (init 3 1) ex_ops) = true /\ is_ok (run orc_down (init 3 1048576) ex_ops) = true /\
+  (* the run at capacity 1 really relocates: 8 reallocs, each moving the buffer, against 3 *)
+  mcalls (get_ok (run orc_up (init 3 1) ex_ops)) = 8%nat /\
+  mcalls (get_ok (run orc_down (init 3 1048576) ex_ops)) = 3%nat.
+Proof. split; [eexists; vm_compute; reflexivity|]. repeat split; vm_compute; reflexivity. Qed.
+
+(* one past the end: permitted by yr_arena_get_ptr's assert, not covered by the fix-up range
+   [data, data + used): the registered pointer goes stale when its target buffer moves *)
+Definition ope_ops : list op :=
+  [ OStruct 1 8 [0]%nat; OWrite 0 [1; 2; 3; 4; 5; 6; 7; 8]; OStorePtr 1 0 (Some (0, 8)%nat); OWrite 0 [9] ].
+
+Lemma one_past_end_refuted_proof :
+  exists nb ops cp cp' orc orc' m m',
+    (exists A, arun false (ainit nb) ops = AOk A) /\ 0 < cp /\ 0 < cp' /\
+    run orc (init nb cp) ops = MOk m /\ run orc' (init nb cp') ops = MOk m' /\
+    abs_found m = false /\ abs_found m' = true /\ abs m <> abs m'.
+Proof.
+  exists 2%nat, ope_ops, 8, 1048576, orc_up, orc_down,
+         (get_ok (run orc_up (init 2 8) ope_ops)), (get_ok (run orc_down (init 2 1048576) ope_ops)).
+  split; [eexists; vm_compute; reflexivity|].
+  repeat split; try (vm_compute; reflexivity).
+  intros H. vm_compute in H. discriminate H.
+Qed.
+
+(* yr_parser_emit_with_arg_reloc takes the pointer before it writes: with a target in the buffer it
+   writes to, the stored pointer is stale whenever that write relocates the buffer *)
+Definition stale_ops : list op := [ OWrite 0 [1; 2; 3; 4; 5; 6; 7; 8]; OEmitArgReloc 0 7 (Some (0, 0)%nat) ].
+
+Lemma pointer_taken_before_write_refuted_proof :
+  exists nb ops cp cp' orc orc' m m',
+    arun true (ainit nb) ops = ADisc DSameBuffer /\ 0 < cp /\ 0 < cp' /\
+    run orc (init nb cp) ops = MOk m /\ run orc' (init nb cp') ops = MOk m' /\ abs m <> abs m'.
+Proof.
+  exists 1%nat, stale_ops, 8, 1048576, orc_up, orc_down,
+         (get_ok (run orc_up (init 1 8) stale_ops)), (get_ok (run orc_down (init 1 1048576) stale_ops)).
+  repeat split; try (vm_compute; reflexivity).
+  intros H. vm_compute in H. discriminate H.
+Qed.
+
+(* yr_arena_allocate_zeroed_memory / yr_arena_allocate_struct zero only what a realloc made with the
+   ZERO flag adds.  After a growth caused by yr_arena_write_data the spare capacity is whatever
+   malloc returned, and a later "zeroed" allocation that fits into it is not zeroed: whether that
+   happens depends on the initial capacity (8: the write grows the buffer to 8 bytes, 3 spare bytes
+   are handed out as zeroed memory; 5: the allocation has to grow and is zeroed) *)
+Definition dirty_ops : list op := [ OWrite 0 [1; 2; 3; 4; 5]; OAlloc 0 3 ].
+Lemma zeroed_allocation_not_zeroed_proof :
+  disciplined 1 dirty_ops /\
+  run orc_up (init 1 8) dirty_ops = MBad BadDirtyZero /\
+  is_ok (run orc_up (init 1 5) dirty_ops) = true.
+Proof. split; [eexists; vm_compute; reflexivity|]. split; vm_compute; reflexivity. Qed.
